@@ -5,7 +5,7 @@ CONSTANTS
   Space = "t0"
   Modes = {"C"}
   EmitCases = FALSE
-  PeekBudget = 1
+  PeekBudget = 2
 INVARIANTS Inv_Ctx Inv_End Inv_Conform
 PROPERTIES Prop_Disc
 CHECK_DEADLOCK FALSE
